@@ -5,6 +5,7 @@ import (
 	"encoding/json"
 	"fmt"
 	"hash/fnv"
+	"os"
 	"reflect"
 	"sort"
 	"strconv"
@@ -13,6 +14,7 @@ import (
 
 	"github.com/RoaringBitmap/roaring"
 	"github.com/akrennmair/updog"
+	"github.com/akrennmair/updog/zzverif/flk"
 	"github.com/akrennmair/updog/zzverif/ix"
 	"github.com/akrennmair/updog/zzverif/model"
 	"github.com/akrennmair/updog/zzverif/rt"
@@ -69,6 +71,7 @@ func c03Base() []c03Query {
 		q(model.And(model.Or(a, c), model.Or(b, c))), q(model.And(model.Not(a), model.Not(b))),
 		q(model.Or(model.And(a, b), c)), q(model.And(a, model.Or(b, c))), q(model.Or(a)), q(model.Or(a, b)),
 		{Expr: model.Or(a, c), GroupBy: []string{"b", "c"}},
+		q(model.And(a, b, model.And())), // an operand-less AND nested in an AND (compared with a fresh uncached index)
 	}
 }
 
@@ -87,6 +90,7 @@ type c03World struct {
 	cap     uint64
 	data    *model.Data
 	preSum0 string
+	ref     *updog.Index
 }
 
 func c03Capacity(name string, leafSize uint64) (uint64, bool) {
@@ -133,7 +137,32 @@ type capture struct{ last *roaring.Bitmap }
 func (c *capture) Get(uint64) (*roaring.Bitmap, bool) { return nil, false }
 func (c *capture) Put(_ uint64, bm *roaring.Bitmap)   { c.last = bm }
 
-func (w *c03World) close() { w.idx.Close(); removeFile(w.path) }
+func (w *c03World) close() {
+	w.idx.Close()
+	removeFile(w.path)
+	if w.ref != nil {
+		w.ref.Close()
+		removeFile(w.path + ".ref")
+	}
+}
+
+func (w *c03World) refPath() string {
+	b, _ := os.ReadFile(w.path)
+	os.WriteFile(w.path+".ref", b, 0o644)
+	return w.path + ".ref"
+}
+
+func hasEmptyOp(e *model.Expr) bool {
+	if (e.Op == "and" || e.Op == "or") && len(e.Kids) == 0 {
+		return true
+	}
+	for _, k := range e.Kids {
+		if hasEmptyOp(k) {
+			return true
+		}
+	}
+	return false
+}
 
 func (w *c03World) fresh() *updog.LRUCache {
 	if w.cfg.Cache == "none" {
@@ -222,6 +251,7 @@ type c03Case struct {
 	History  []int         `json:"history,omitempty"` // indexes into the alphabet
 	Pair     []*model.Expr `json:"pair,omitempty"`
 	Extended bool          `json:"extended,omitempty"`
+	Prefix   bool          `json:"prefix,omitempty"`
 	Big      int           `json:"big,omitempty"`
 	Edit     []int         `json:"edit,omitempty"`
 	EditTo   []string      `json:"edit_to,omitempty"`
@@ -245,6 +275,18 @@ func (c c03Case) sig() string {
 }
 
 func (w *c03World) want(q c03Query) string {
+	if hasEmptyOp(q.Expr) {
+		// operators without operands are outside the reference model (C01 excludes them): the oracle is what the
+		// property literally names, a freshly opened index without cache
+		if w.ref == nil {
+			var err error
+			if w.ref, err = ix.Open(w.refPath(), false, nil); err != nil {
+				rt.Harnessf("reference index: %v", err)
+			}
+		}
+		r, _ := safeExec(w.ref, &updog.Query{Expr: q.Expr.Updog(), GroupBy: append([]string{}, q.GroupBy...)})
+		return r
+	}
 	sel, err := w.data.Eval(q.Expr)
 	if err != nil {
 		return "error"
@@ -288,6 +330,7 @@ type c03Args struct {
 }
 
 func c03Worker(ctx *rt.Ctx, job *rt.Job) []*rt.Violation {
+	flk.Sequential(true) // single goroutine: a lock of updog or bbolt that cannot be taken now never will be (reported as a hang)
 	var a c03Args
 	job.Decode(&a)
 	c03Extended = a.Extended
@@ -421,12 +464,61 @@ func c03BigPreload(ctx *rt.Ctx) *rt.Violation {
 	return nil
 }
 
+// c03Prefix: leaves whose column+value concatenations coincide ("a"+"bc" == "ab"+"c", "a"+"b" == "ab"+"") must never
+// share a cache entry: every ordered pair of such leaves (plain, negated, and inside AND/OR) on a cached index.
+func c03Prefix(ctx *rt.Ctx) *rt.Violation {
+	rows := []model.Row{{"a": "b"}, {"a": "bc", "ab": "c"}, {"ab": ""}, {"a": "b", "ab": "c"}, {"ab": "c"}, {"a": "bc"}, {}}
+	p, _, err := ix.Build(ctx.Scratch, rows, ix.MemFile)
+	if err != nil {
+		rt.Harnessf("build: %v", err)
+	}
+	defer removeFile(p)
+	d := model.FromRows(rows)
+	lv := []*model.Expr{model.Eq("a", "b"), model.Eq("ab", ""), model.Eq("a", "bc"), model.Eq("ab", "c")}
+	var qs []*model.Expr
+	for _, l := range lv {
+		qs = append(qs, l, model.Not(l), model.And(l, lv[0]), model.Or(l, lv[3]))
+	}
+	for _, pre := range []bool{false, true} {
+		sw := &swapCache{}
+		idx, err := ix.Open(p, pre, sw)
+		if err != nil {
+			rt.Harnessf("open: %v", err)
+		}
+		for _, q1 := range qs {
+			for _, q2 := range qs {
+				sw.inner = updog.NewLRUCache(1 << 20)
+				execCount(idx, q1.Updog())
+				ctx.Cov.Add("prefix_leaf_pairs", 1)
+				ctx.Cov.Add("traces_validated_against_impl", 1)
+				if m := compareCount(d, q2, idx, q2.Updog()); m != "" {
+					idx.Close()
+					cs := c03Case{Cfg: c03Cfg{Preload: pre, Cache: "ample"}, Pair: []*model.Expr{q1, q2}, Prefix: true}
+					return rt.NewViolation("C03", "prefix", fmt.Sprintf("prefix-leaves preload=%v pair: %s THEN %s", pre, q1, q2), cs, "on a cached index with prefix-related column names, after %s the query %s gives: %s", q1, q2, m)
+				}
+			}
+		}
+		idx.Close()
+	}
+	return nil
+}
+
 // c03Edited: the same expression OBJECT executed again after the caller edited it in place (exported fields): the
 // second execution must answer the edited expression, not a cached answer of the old one.
 func c03Edited(ctx *rt.Ctx) *rt.Violation {
+	var cfgs []c03Cfg
 	for _, pre := range []bool{false, true} {
 		for _, cn := range []string{"ample", "lru3"} {
-			w := newC03World(ctx, c03Cfg{Preload: pre, Cache: cn})
+			cfgs = append(cfgs, c03Cfg{Preload: pre, Cache: cn})
+		}
+	}
+	return c03EditedCfg(ctx, cfgs)
+}
+
+func c03EditedCfg(ctx *rt.Ctx, cfgs []c03Cfg) *rt.Violation {
+	{
+		for _, cfg := range cfgs {
+			w := newC03World(ctx, cfg)
 			vals := []string{"1", "0", "zz"}
 			cols := []string{"a", "b", "c"}
 			build := func(shape int) (updog.Expression, []*updog.ExprEqual) {
@@ -515,6 +607,9 @@ func c03Run(ctx *rt.Ctx) []*rt.Violation {
 	if v := c03Edited(ctx); v != nil {
 		vs = append(vs, v)
 	}
+	if v := c03Prefix(ctx); v != nil {
+		vs = append(vs, v)
+	}
 	ctx.Cov.Note("alphabet", fmt.Sprintf("%d queries over leaves a,b,c of the truth-table dataset (count identifies the boolean function), incl. permuted/duplicated operands, single-operand AND/OR, NOT pairs, one grouped query", len(c03Alphabet())))
 	ctx.Cov.Note("rule", "BFS over query histories per configuration {on-demand,preloaded} x {no cache, LRU 0, ~1 entry, ~3 entries, ample}; state = (cache key, content checksum) of every cached entry in recency order + checksum of all preloaded bitmaps; every transition's result compared with the uncached answer; plus all ordered query pairs of a tree space on a fresh ample cache; plus a 2500-value index probed value by value on demand vs preloaded vs preloaded+cached; plus expression objects executed, edited in place (every leaf x column x value) and executed again")
 	ctx.Assumef("cache keys are compared up to 64-bit collisions of the hash function (property text)")
@@ -528,6 +623,9 @@ func c03Replay(ctx *rt.Ctx, v *rt.Violation) *rt.Violation {
 	}
 	if v.Kind == "edited" {
 		return c03Edited(ctx)
+	}
+	if v.Kind == "prefix" {
+		return c03Prefix(ctx)
 	}
 	var c c03Case
 	if err := json.Unmarshal(v.Case, &c); err != nil {
